@@ -162,3 +162,11 @@ package segread
 //@   requires sst != nil && len(fdata) <= 4294967295
 //@   safe
 //@ end
+
+// C18: the same guard for the bit sets of the rollup files.
+//@ func readRollupFile
+//@   props C18
+//@   assumecalleerequires
+//@   site call bs.UnmarshalBinary #1:
+//@     assert [the-bitset-library-only-sees-a-bit-set-whose-count-fits] len(arg1) >= 8 && pqBe64(arg1[0:8]) <= uint64(len(arg1) - 8) * 8
+//@ end
